@@ -99,6 +99,8 @@ func termRec(v ssa.Value, env termEnv, seen map[ssa.Value]bool) string {
 			return "cell{" + strings.Join(parts, " | ") + "}"
 		}
 		return "*" + termRec(x.X, env, seen)
+	case *ssa.IndexAddr:
+		return "&" + termRec(x.X, env, seen) + "[]"
 	case *ssa.FieldAddr:
 		_, f, _ := fieldAddrName(x)
 		return "&" + termRec(x.X, env, seen) + "." + f
